@@ -198,6 +198,13 @@ def hand_items(ids):
                       Variant("AB", [Field("y", I("u8"))]), Variant("Ab")],
       [[("tag", "t"), ("rename_all", "lowercase")]])
     E("HUnitCollide", [Variant("First"), Variant("Second", attrs=[[("rename", "First")]]), Variant("third"), Variant("Third")], [[("rename_all", "lowercase")]])
+    # Option<Option<T>> fields are required like any other field (no implicit default)
+    S("HNestedOpt", [Field("a", T.Option(T.Option(I("u8")))), Field("b", T.Option(T.Option(T.String)), [[("missing", f())]]), Field("c", I("u8")),
+                     Field("d", T.Option(T.Option(T.Bool)), [[("default", None)]])], [[("where_uerr",)]])
+    # a struct whose fields have their own error type, nested below other containers (locations must stay absolute)
+    hfe = [it for it in items if it.name == "HFieldErr"][0]
+    S("HFieldErrOuter", [Field("inner", T.It(hfe)), Field("list", T.Vec(T.It(hfe))), Field("by_key", T.Map("btree", "String", T.It(hfe)), [[("default", None)]]),
+                         Field("pair", T.Tuple(I("u8"), T.It(hfe))), Field("count", T.Vec(I("u8")), [[("error", 1)]])])
     # camelCase word boundaries inside "single words": a digit followed by a letter
     S("HCamelDigits", [Field("sha256sum", T.String), Field("ipv4addr", I("u8"), [[("default", None)]]), Field("utf8mode", T.Bool), Field("crc32", I("u8")),
                        Field("h264profile_id", T.Option(I("u8")))], [[("rename_all", "camelCase")], [("deny", None)]])
@@ -232,7 +239,7 @@ def base_types(rng, items, allow_items=True, depth=0):
     pool = [I("u8"), I("i16"), I("u32"), I("i64"), T.Bool, T.String, T.Option(I("u8")), T.Vec(I("u8")), T.Option(T.String),
             T.Char, T.F64, T.Unit, T.Vec(T.Option(T.Bool)), T.Tuple(I("u8"), T.Bool), T.Map("btree", "String", I("u8")),
             T.Map("hash", "u32", T.String), T.HashSet(I("u8")), T.Box(I("i8")), T.Array(2, I("u8")), T.CS("u8"),
-            I("NonZeroU8"), T.Json, T.Vec(T.String), T.Option(T.Vec(I("u16")))]
+            I("NonZeroU8"), T.Json, T.Vec(T.String), T.Option(T.Vec(I("u16"))), T.Option(T.Option(I("u8"))), T.Option(T.Option(T.String))]
     if allow_items and items and rng.random() < 0.35:
         it = rng.choice(items)
         w = rng.choice([lambda x: x, T.Vec, T.Option, lambda x: T.Map("btree", "String", x), lambda x: T.Tuple(I("u8"), x), T.Box])
@@ -852,7 +859,7 @@ def mutate_once(p, rng, extra_keys=()):
     elif op == "del_member" and new["m"]:
         del new["m"][rng.randrange(len(new["m"]))]
     elif op == "extra_key":
-        pool = list(extra_keys) + ["extra", "zzz", "type", "x", "0", ""]
+        pool = list(extra_keys) + ["extra", "zzz", "type", "x", "0", "", "$schema", "_comment", "_id", "$ref", "#", "@type", "__proto__"]
         new["m"].insert(rng.randint(0, len(new["m"])), [rng.choice(pool), copy.deepcopy(rng.choice(WRONG))])
     elif op == "near_key" and new["m"]:
         k = rng.choice(new["m"])[0]
@@ -950,6 +957,20 @@ def gen_payloads(entry, rng, n, max_faults=3):
             drops = rng.sample(drops, 8)
         for q in drops:
             out.append((q, 1))
+    # a typo in a key: the member is an unknown key AND the field it was meant for is missing (two independent faults)
+    if entry.ty[0] == "item" or contains_item(entry.ty):
+        base2 = gen_valid(entry.ty, rng)
+        typos = []
+        for path in positions(base2):
+            cur = get_at(base2, path)
+            if isinstance(cur, dict) and "m" in cur:
+                for i in range(len(cur["m"])):
+                    new = copy.deepcopy(cur)
+                    new["m"][i][0] = near_miss(new["m"][i][0], rng)
+                    if len({k for k, _ in new["m"]}) == len(new["m"]):
+                        typos.append(set_at(base2, path, new))
+        for q in (rng.sample(typos, 6) if len(typos) > 6 else typos):
+            out.append((q, 2))
     # near-misses made of multi-byte characters (did-you-mean: the budget counts bytes, the distance characters)
     if entry.ty[0] == "item":
         it = entry.ty[1]
